@@ -180,9 +180,14 @@ def handler (op : String) (j : Json) : Option (R Json) :=
     pure <| exprJson (mergeP0 a b (getBoolD j "da" false) (getBoolD j "db" false))
   | "param.engine" => some do
     let fr ← tabD j "free" asStrTab []
-    let segs ← (← getArr j "segs").mapM fun s => do
+    let own0 ← tabD j "own0" asNatTab []
+    let segs0 ← (← getArr j "segs").mapM fun s => do
       let cs ← (← s.getArr?).toList.mapM asCmd
       pure ((Regs.empty : Regs Expr), cs)
+    -- `own0`: what the RegRefs of the first Program hold before the run
+    let segs := match segs0 with
+      | (_, cs) :: rest => ((fun m => (lookupN own0 m).map Expr.num), cs) :: rest
+      | [] => []
     let o := runSegs (fun n => (lookupS fr n).map Expr.num) {} segs
     let last := fun (m : Nat) => match lastOutcome m (segs.flatMap (·.2)) with
       | some v => exprJson v | none => Json.null
